@@ -133,6 +133,11 @@ func Fetch(
 			return err
 		}
 
+		// Decoders stop at the end of their own stream (some accept an empty input as an empty stream); make sure that the whole record is on the tape, i.e. that it hasn't been cut off
+		if _, err := io.Copy(io.Discard, tr); err != nil {
+			return err
+		}
+
 		if err := verify(); err != nil {
 			return err
 		}
